@@ -142,6 +142,17 @@ FilingsOf(lines, id, i) ==
        IN here \o FilingsOf(lines, id, i + 1)
 Filings(st, id) == BagOf(FilingsOf(st.lines, id, 1))
 
+\* neighbourhood answers that follow from the collections (C11)
+OtherSeg(l, id) == IF l.refs[1].id = id THEN l.refs[2].id ELSE l.refs[1].id
+FiledIdx(st, id, k) == {i \in DOMAIN st.lines :
+    st.lines[i].rt \in {"L", "C", "E"} /\
+    \E n \in DOMAIN st.lines[i].refs : st.lines[i].refs[n].id = id /\ KeyOn(st.lines[i], n) = k}
+\* one neighbour per line filed under k on id (a line filed twice counts once)
+OthersVia(st, id, k) == BagOf(SeqMap(LAMBDA i : OtherSeg(st.lines[i], id), SetToSeq(FiledIdx(st, id, k))))
+OthersVia2(st, id, k1, k2) ==
+  BagOf(SeqMap(LAMBDA i : OtherSeg(st.lines[i], id), SetToSeq(FiledIdx(st, id, k1) \cup FiledIdx(st, id, k2))))
+EdgeType(l) == IF l.rt = "L" THEN "L" ELSE IF l.rt = "C" THEN "C" ELSE EClass(l).t
+
 \* the paths that use a given real link (once per use)
 RECURSIVE PathUses(_, _, _)
 PathUses(st, l, i) ==
